@@ -4,6 +4,9 @@ CONSTANTS
   S = 3
   Ws = {0, 1, 2, 3}
   WriterTyped = {TRUE, FALSE}
+  Reversed = {FALSE, TRUE}
+  FnStep = 2
+  Isolated = TRUE
   Named = {TRUE, FALSE}
 INVARIANT TypeOK
 INVARIANT Conservation
@@ -12,4 +15,5 @@ INVARIANT Accounted
 INVARIANT KindAndStep
 INVARIANT PassThrough
 INVARIANT Fifo
+INVARIANT ArgPristine
 PROPERTY WriteOnce
